@@ -202,6 +202,9 @@ func (env *ExprEnv) ghostThroughEmbeddingTarget(x Val, name string) ([]modTarget
 func (a *Activation) applyContract(con *FuncContract, fn *ssa.Function, args []Val, bindings []Val, st *State, pos token.Pos, sig *types.Signature) (*State, []Val) {
 	t := a.t
 	t.contractsUsed[con.Full+caseSuffix(con)] = true
+	if con.hasClause("summary") {
+		t.assumed["summary contract (frame and case-independent facts only; the cases are verified separately): "+con.Full] = true
+	}
 	if con.Trusted {
 		t.assumed["assumed contract (trusted, not verified): "+con.Full] = true
 	}
@@ -380,8 +383,12 @@ func shortName(full string) string {
 func (t *Task) verifyFunc(fn *ssa.Function, con *FuncContract) {
 	t.curFn = fullName(fn)
 	for _, c := range con.Clauses {
+		if c.Kind == "mode" && strings.TrimSpace(c.Expr) == "absmul" {
+			t.absMul = true
+		}
 		if c.Kind == "mode" && strings.TrimSpace(c.Expr) == "bv64" {
 			t.bv = true
+			gBV = true
 		}
 	}
 	st0 := t.newEpochState(tTrue)
